@@ -299,4 +299,20 @@ theorem cdSafe_after (pre post : Str) (h : cdSafe (pre ++ (cdataClose ++ post)) 
     lineHasClose post = false :=
   cdSafe_close post (cdSafe_append_right pre _ h)
 
+/-! ### `lex` (offsets) and `toks` are the same scan -/
+
+/-- the `lex` driver op (with offsets) and the token list used by `feed` are the same scan -/
+theorem lexGo_toksGo (skip pos : Nat) (s : Str) : (lexGo skip pos s).map Prod.snd = toksGo skip s := by
+  induction s generalizing skip pos with
+  | nil => cases skip <;> rfl
+  | cons c cs ih =>
+    cases skip with
+    | succ k => simpa [lexGo, toksGo] using ih k (pos + 1)
+    | zero =>
+      simp only [lexGo, toksGo]
+      cases matchHere (c :: cs) with
+      | none => exact ih 0 (pos + 1)
+      | some m => simp only [List.map_cons]; rw [ih]
+
+theorem lex_toks (s : Str) : (lex s).map Prod.snd = toks s := lexGo_toksGo 0 0 s
 end Ofx.Lexer
